@@ -5,8 +5,9 @@ methods GET/POST/PUT/PATCH/DELETE/HEAD/OPTIONS, http/https URLs (names, IPv4, IP
 ports, paths with query / percent-escapes / UTF-8), versions HTTP/1.1 (Host header), HTTP/2.0 and HTTP/3 (:authority),
 header lists with duplicates, cookies and UTF-8 or Latin-1 values, text and binary request bodies, responses with any
 status, text bodies in several charsets (declared in Content-Type, by BOM, by <meta>, or not at all), binary bodies, and
-Content-Encoding gzip/deflate/br/zstd.  Export: SaveHar().make_har(flows) -> json.dumps(indent=4) (what save.har writes);
-import: FlowReader on those bytes.
+Content-Encoding gzip/deflate/br/zstd, and text-typed bodies / header values holding byte sequences that are invalid in
+their declared or inferred charset.  Export: SaveHar().export_har(flows, path), i.e. the `save.har` command writing a
+real file (must not raise; the file must be valid JSON); import: FlowReader on the bytes of that file.
 Oracle, per exchange and in order: request method, URL (pretty_url and url), HTTP version (HTTP/2.0 == HTTP/2), request
 header fields, request body for POST/PUT/PATCH, response status code, response header fields, decoded response body.
 Header fields are compared as ordered (name, value) lists without Content-Length (the statement allows recomputation)
@@ -16,6 +17,8 @@ response body" in the statement).
 import gzip
 import io
 import json
+import os
+import tempfile
 import zlib
 
 from hypothesis import strategies as st
@@ -39,7 +42,7 @@ except ImportError:  # pragma: no cover
 
 PID = "C41"
 LEVEL = "exploration"
-TECHNIQUE = "Hypothesis-generated HTTP exchanges -> SaveHar.make_har -> FlowReader round trip, field-by-field comparison"
+TECHNIQUE = "Hypothesis-generated HTTP exchanges -> SaveHar.export_har (file) -> FlowReader round trip, field-by-field comparison"
 RULE = ("1-4 generated HTTP exchanges per export; non-trivial = non-HTTP/1.1 version, binary body, coded body, non-UTF-8 "
         "charset or duplicate header names; distinct by (classes, digest of the exchange)")
 ASSUMPTIONS = ["Host header / :authority agree with the request target (as a real client sends them)",
@@ -57,7 +60,7 @@ T0 = 1700000000.0
 _host = st.sampled_from(["example.com", "www.example.org", "a.b.c.example", "localhost", "192.0.2.7", "127.0.0.1", "example.com",
                          "www.example.org", "h-1.example.net", "10.0.0.1", "sub.domain.example.co.uk", "example.com", "::1", "2001:db8::2",
                          "bücher.example"])
-_seg = st.one_of(st.sampled_from(["", "a", "index.html", "%20x", "%E2%82%AC", "a+b", "a;b", "..", "~u", "a=b", "api", "v1", "%2F", "a%00b", "€", "café"]),
+_seg = st.one_of(st.sampled_from(["", "a", "index.html", "%20x", "%E2%82%AC", "a+b", "a;b", "..", "~u", "a=b", "api", "v1", "%2F", "a%00b", "api", "v2", "static", "img", "café"]),
                  st.text(alphabet="abcdefghijklmnopqrstuvwxyz0123456789-._", max_size=6))
 _q = st.one_of(st.sampled_from(["", "", "?a=b", "?a=b&a=c", "?q=%C3%A9", "?x", "?a=b+c&d=%26", "?a=1#frag", "?a=&b", "?%20=%20", "?", "?u=é"]),
                st.lists(st.tuples(st.text(alphabet="abcxyz", min_size=1, max_size=3), st.text(alphabet="abc123", max_size=3)), min_size=1,
@@ -90,9 +93,16 @@ _coding = st.sampled_from([None, None, None, "gzip", "deflate", "br", "zstd", "i
 def _body(charsets=True):
     """{"kind": "text", "text": str, "ctype": .., "charset": .., "declare": bool, "bom": bool} | {"kind": "binary", "data": bytes, "ctype": ..}"""
     text = st.fixed_dictionaries({"kind": st.just("text"), "text": _text, "ctype": _ctype, "charset": _charset if charsets else st.none(),
-                                  "declare": st.booleans() | st.just(True), "bom": st.sampled_from([False, False, False, True])})
+                                  "declare": st.booleans() | st.just(True), "bom": st.sampled_from([False] * 9 + [True])})
     binary = st.fixed_dictionaries({"kind": st.just("binary"), "data": _binary, "ctype": _bin_ctype})
-    return st.one_of(text, text, binary)
+    # text-typed, mostly printable, but not valid in its declared / inferred charset: a stray Latin-1 byte, a truncated
+    # multi-byte sequence, an overlong form ... in a UTF-8 / JSON / HTML body
+    broken = st.fixed_dictionaries({"kind": st.just("broken"), "text": _text.filter(lambda t: t.isascii()) | st.just("plain ascii text, long enough to count as text"),
+                                    "junk": st.sampled_from([b"\xe9", b"\xe2\x82", b"\xc3", b"\xff", b"\xc0\xaf", b"\xed\xa0\x80", b"\xf0\x9f\x8d"]),
+                                    "pos": st.integers(0, 40),
+                                    "ctype": st.sampled_from(["text/plain; charset=utf-8", "application/json", "text/html", "text/html; charset=utf-8",
+                                                              "application/x-www-form-urlencoded", "text/css; charset=ascii", "application/xml"])})
+    return st.one_of(text, text, text, binary, binary, broken)
 
 
 def exchange():
@@ -102,7 +112,7 @@ def exchange():
         "host": _host,
         "port": st.sampled_from([None, None, None, 8080, 8443, 81, 443, 80]),
         "path": _path,
-        "version": st.sampled_from(["HTTP/1.1", "HTTP/1.1", "HTTP/2.0", "HTTP/3"]),
+        "version": st.sampled_from(["HTTP/1.1", "HTTP/1.1", "HTTP/1.1", "HTTP/2.0", "HTTP/3", "HTTP/3"]),
         "req_headers": st.lists(st.tuples(_hname, _hval).map(list), max_size=4),
         "req_latin1": st.sampled_from([False] * 9 + [True]),
         "req_body": st.none() | _body(),
@@ -144,6 +154,10 @@ def _body_bytes(b):
     """-> (bytes, content-type value or None, class labels)"""
     if b is None:
         return b"", None, []
+    if b["kind"] == "broken":
+        raw = ("some text " + b["text"]).encode("ascii", "replace")
+        p = b["pos"] % (len(raw) + 1)
+        return raw[:p] + b["junk"] + raw[p:], b["ctype"], ["invalid-bytes"]
     if b["kind"] == "binary":
         bomlike = b["data"].startswith((b"\xef\xbb\xbf", b"\xff\xfe", b"\xfe\xff", b"\x00\x00\xfe\xff"))
         return b["data"], b["ctype"], ["binary-body"] + (["bom-like-binary"] if bomlike else [])
@@ -305,16 +319,43 @@ def _first(labels, order, default):
 
 
 _IMPORT_RISK = ("non-ascii-target", "idn-host", "latin1-header", "ipv6-host")
-_BODY_CAUSE = ("bom", "bom-like-binary", "in-band-charset", "charset-undeclared", "charset", "binary-body", "coded")
+_BODY_CAUSE = ("bom", "bom-like-binary", "in-band-charset", "invalid-bytes", "charset-undeclared", "charset", "binary-body", "coded")
+_EXPORT_RISK = ("invalid-bytes", "req-invalid-bytes", "latin1-header", "req-binary-body", "binary-body", "non-ascii-target")
+_TMP = "/dev/shm" if os.path.isdir("/dev/shm") and os.access("/dev/shm", os.W_OK) else "/var/tmp"
 
 
 def check_case(case, ctx, top=True):
     built = [to_desc(x) for x in case]
     flows = [fg.build(d) for d, _ in built]
+    labels_all = sorted({l for _, ls in built for l in ls})
+    fd, path = tempfile.mkstemp(prefix="c41-", suffix=".har", dir=_TMP)
+    os.close(fd)
     try:
-        har = json.dumps(savehar.SaveHar().make_har(flows), indent=4).encode()
+        try:
+            # the user-facing export: the `save.har` command writes the file (make_har + json.dumps + encode + write)
+            savehar.SaveHar().export_har(flows, path)
+        except Exception as e:
+            if len(case) > 1 and top:
+                for x in case:      # which exchange cannot be exported?  (and still check the others)
+                    sub = Probe()
+                    check_case([x], sub, top=False)
+                    for b, m in sub.fails:
+                        ctx.fail(b, m)
+                return
+            ctx.fail("export-crash:%s@%s:%s" % (type(e).__name__, repo_frame(e), _first(labels_all, _EXPORT_RISK, "other")),
+                     "%r labels=%r" % (e, labels_all))
+            return
+        with open(path, "rb") as fh:
+            har = fh.read()
+    finally:
+        try:
+            os.unlink(path)
+        except OSError:
+            pass
+    try:
+        json.loads(har.decode("utf-8"))
     except Exception as e:
-        ctx.fail("export-crash:%s@%s" % (type(e).__name__, repo_frame(e)), repr(e))
+        ctx.fail("exported-file-not-json:" + type(e).__name__, repr(e)[:200])
         return
     try:
         imported = list(FlowReader(io.BytesIO(har)).stream())
